@@ -88,6 +88,10 @@ def generate(rng: random.Random, tier: str) -> dict:
         what = rng.choice([("resources/read", {"uri": "file:///a.txt"}), ("tools/call", {"name": "echo", "arguments": {"text": "same"}}), ("custom/slow", None)])
         lead = {"client": 0, "method": what[0], "params": copy.deepcopy(what[1]), "notif": False, "build": "typed", "behav": "sleep_ok", "sleep": rng.choice([50, 200]),
                 "session": None, "gap": 0, "id": "lead", "cancel_after": rng.choice([1, 5, 20])}
+        if rng.random() < 0.5:
+            # ... or the first one's handler fails after the others have entered theirs
+            del lead["cancel_after"]
+            lead["behav"] = "sleep_raise"
         followers = [{"client": 1 + j, "method": what[0], "params": copy.deepcopy(what[1]), "notif": False, "build": "typed", "behav": "sleep_ok", "sleep": 10,
                       "session": None, "gap": rng.choice([0, 1, 3, 300]), "id": f"follow-{j}"} for j in range(rng.choice([1, 2, 3]))]
         msgs = [lead] + followers + msgs[:2]
